@@ -302,23 +302,34 @@ func init() {
 				}
 				return &didtypes.MsgCreateDIDRequest{Did: idents[0].did, Document: &d, VerificationMethodId: vmID, Signature: bytes.Repeat([]byte{1}, 64), FromAddress: o}
 			}
-			a, b := withCtl(nil), withCtl(&didtypes.JSONStringOrStrings{})
-			la, lb := msgLabel(te, a), msgLabel(te, b)
-			for _, md := range modes {
-				ba, ra := e.signBytesOf(a, md.m, A)
-				bb, rb := e.signBytesOf(b, md.m, A)
-				ans := "pass"
-				switch {
-				case ra != "ok" || rb != "ok":
-					ans = "pass #not-signable-in-this-mode"
-				case a.ValidateBasic() != nil && b.ValidateBasic() != nil:
-					ans = "pass #neither-is-admissible"
-				case a.ValidateBasic() != nil || b.ValidateBasic() != nil:
-					ans = "pass #one-of-them-is-refused-by-stateless-validation"
-				case bytes.Equal(ba, bb):
-					ans = "fail #identical-sign-bytes"
+			type ctlPair struct{ a, b *didtypes.MsgCreateDIDRequest }
+			cA := idents[0].did
+			pairsC := []ctlPair{
+				{withCtl(nil), withCtl(&didtypes.JSONStringOrStrings{})},
+				// repeated controller entries: lists that differ are different documents
+				{withCtl(&didtypes.JSONStringOrStrings{cA}), withCtl(&didtypes.JSONStringOrStrings{cA, cA})},
+				{withCtl(&didtypes.JSONStringOrStrings{""}), withCtl(&didtypes.JSONStringOrStrings{"", ""})},
+				{withCtl(&didtypes.JSONStringOrStrings{cA, ""}), withCtl(&didtypes.JSONStringOrStrings{"", cA})},
+			}
+			for _, cp := range pairsC {
+				a, b := cp.a, cp.b
+				la, lb := msgLabel(te, a), msgLabel(te, b)
+				for _, md := range modes {
+					ba, ra := e.signBytesOf(a, md.m, A)
+					bb, rb := e.signBytesOf(b, md.m, A)
+					ans := "pass"
+					switch {
+					case ra != "ok" || rb != "ok":
+						ans = "pass #not-signable-in-this-mode"
+					case a.ValidateBasic() != nil && b.ValidateBasic() != nil:
+						ans = "pass #neither-is-admissible"
+					case a.ValidateBasic() != nil || b.ValidateBasic() != nil:
+						ans = "pass #one-of-them-is-refused-by-stateless-validation"
+					case bytes.Equal(ba, bb):
+						ans = "fail #identical-sign-bytes"
+					}
+					s.Emit(fmt.Sprintf("mon.c14.pair.admissible mode=%s | %s | %s", md.name, la, lb), ans)
 				}
-				s.Emit(fmt.Sprintf("mon.c14.pair.admissible mode=%s | %s | %s", md.name, la, lb), ans)
 			}
 		}
 		// the node renders the sign bytes after stateless validation has run on the message object (ValidateBasicDecorator
